@@ -93,13 +93,18 @@ func (m *mutex) Lock() (err error)
     ghost at unlock lock: m.localHeld := false
   end
 
+// the etcd key is shared by all goroutines of one member (it belongs to the member's lease session): only the
+// process-local half keeps them apart, so it has to be held until the etcd half is released
+ghost var gRemoteReleasedUnderLocal bool
 func (m *mutex) Unlock() (err error)
   requires m != nil && m.m != nil
   requires held: m.localHeld
-  modifies m.localHeld, remoteHeld
+  modifies m.localHeld, remoteHeld, gRemoteReleasedUnderLocal
   ensures local-half-always-released: !m.localHeld
   ensures remote-released-on-success: err == nil ==> !remoteHeld[ref(m.m)]
+  ensures the-etcd-half-is-released-while-the-local-half-is-still-held: gRemoteReleasedUnderLocal
   ghost at unlock lock: m.localHeld := false
+  ghost at call Mutex.Unlock: gRemoteReleasedUnderLocal := m.localHeld
 
 func (m *mutex) Lock#cancel()
   trusted
